@@ -5,20 +5,20 @@ import LenaModel.Model.C10
     -> {"flow":[TOK,…], "run":RUN (on merge pat A B), "a":RUN (on A alone), "pred":[[ITEM,…],…] (mergeBlocks),
         "pickA":…, "pickB":…, "sel":[bool,…] (selection predicate on the interleaved flow)}
 RUN  = {"blocks":[[ITEM,…],…],"tail":[ITEM,…],"fs":FS,"err":null|name}
-EL   = {"k":"tocsv"} | {"k":"write","outdir":s,"defname":s,"eu":b,"ow":b}
+EL   = {"k":"tocsv","dup":b,"header":b} | {"k":"write","outdir":s,"defname":s,"eu":b,"ow":b}
      | {"k":"render","def":s,"templates":[s,…],"sel":null|SEL} | {"k":"png","format":s,"ow":b}
      | {"k":"pdf","ow":b,"sched":[[finishAt,rc],…]} | {"k":"h2g"} | {"k":"iterbins","bins":[kind,…]}
-     | {"k":"mapbins","bins":[kind,…],"inner":CELLINNER} | {"k":"runif","sel":SEL,"inner":INNER}
+     | {"k":"mapbins","bins":[kind,…],"inner":CELLINNER,"drop":b} | {"k":"runif","sel":SEL,"inner":INNER}
      | {"k":"mapgroup","inner":INNER} | {"k":"pipe","stages":[EL,…]} (Sequence of the elements above except "pdf")
 SEL  = {"cls":name} | {"key":s} | {"or":[SEL,…]} | {"and":[SEL,…]} | {"const":b}
-INNER = "id"|"dup"|"drop"|"number"|"first"|"count"|"raise"|"yieldraise"|"last"|{"write":EL}
+INNER = "id"|"dup"|"drop"|"number"|"first"|"count"|"raise"|"yieldraise"|"dupeven"|"last"|{"write":EL}
 CELLINNER = "id"|"dup"|"drop"|"dupfirst"|"raise"|"yieldraise"|"ctx"
 ITEM = {"t":TOK,"d":DATA,"c":null|{"t":TOK,"v":CV-dict}} (+ "pass":b on output of "pdf")
 TOK  = n (source object) | {"made":[TOK,k]}
-DATA = {"k":"int","v":i} | {"k":"str","v":s} | {"k":"text","kind":s,"src":TOK}
+DATA = {"k":"int","v":i} | {"k":"str","v":s} | {"k":"text","kind":s,"src":TOK,"lines":n}
      | {"k":"other","cls":s,"id":n,"iter":b} | {"k":"seq","tuple":b,"items":[DATA,…]} | {"k":"writable","id":n}
      | {"k":"rows","id":n,"rk":"ok"|"empty"|"notiter","upd":b} | {"k":"hist","id":n,"dim":n,"shape":[n,…],"bin":kind}
-     | {"k":"graph","src":TOK}
+     | {"k":"graph","src":TOK,"n":n}
 CV   = null | bool | int | string | {"l":[CV,…]} | {"d":[[key,CV],…]} | {"o":tag}
 FS   = {"files":[[path,CONTENT,mtime],…],"dirs":[s,…],"clock":n}
 CONTENT = {"lit":s} | {"text":kind,"src":TOK} | {"obj":id} | {"conv":kind,"src":s} -/
@@ -94,9 +94,9 @@ partial def toData (j : Json) : Option Data :=
   | some "int" => (int? (getD j "v")).map Data.int
   | some "str" => (str? (getD j "v")).map Data.str
   | some "text" =>
-    match str? (getD j "kind"), toTok (getD j "src") with
-    | some k, some t => some (.text k t)
-    | _, _ => none
+    match str? (getD j "kind"), toTok (getD j "src"), nat? (getD j "lines") with
+    | some k, some t, some n => some (.text k t n)
+    | _, _, _ => none
   | some "other" =>
     match str? (getD j "cls"), nat? (getD j "id"), bool? (getD j "iter") with
     | some c, some n, some b => some (.other c n b)
@@ -121,13 +121,16 @@ partial def toData (j : Json) : Option Data :=
         (str? (getD j "bin")).bind toBinKind with
     | some id, some dim, some shape, some b => some (.hist ⟨id, dim, shape, b⟩)
     | _, _, _, _ => none
-  | some "graph" => (toTok (getD j "src")).map Data.graph
+  | some "graph" =>
+    match toTok (getD j "src"), nat? (getD j "n") with
+    | some t, some n => some (.graph t n)
+    | _, _ => none
   | _ => none
 
 partial def ofData : Data → Json
   | .int i => Json.mkObj [("k", "int"), ("v", ofInt i)]
   | .str s => Json.mkObj [("k", "str"), ("v", Json.str s)]
-  | .text k t => Json.mkObj [("k", "text"), ("kind", Json.str k), ("src", ofTok t)]
+  | .text k t n => Json.mkObj [("k", "text"), ("kind", Json.str k), ("src", ofTok t), ("lines", ofNat n)]
   | .other c n b => Json.mkObj [("k", "other"), ("cls", Json.str c), ("id", ofNat n), ("iter", Json.bool b)]
   | .seq b items => Json.mkObj [("k", "seq"), ("tuple", Json.bool b), ("items", Json.arr (items.map ofData).toArray)]
   | .writable n => Json.mkObj [("k", "writable"), ("id", ofNat n)]
@@ -138,7 +141,7 @@ partial def ofData : Data → Json
   | .hist h =>
     Json.mkObj [("k", "hist"), ("id", ofNat h.id), ("dim", ofNat h.dim), ("shape", ofList ofNat h.shape),
       ("bin", Json.str (binKindName h.bin))]
-  | .graph t => Json.mkObj [("k", "graph"), ("src", ofTok t)]
+  | .graph t n => Json.mkObj [("k", "graph"), ("src", ofTok t), ("n", ofNat n)]
 
 def toItem (j : Json) : Option Item :=
   match toTok (getD j "t"), toData (getD j "d") with
@@ -222,14 +225,14 @@ def ofErr : Option Exc → Json
 def dataCls : Data → String
   | .int _ => "int"
   | .str _ => "str"
-  | .text _ _ => "str"
+  | .text _ _ _ => "str"
   | .other c _ _ => c
   | .seq true _ => "tuple"
   | .seq false _ => "list"
   | .writable _ => "Writable"
   | .rows _ _ _ => "Rows"
   | .hist _ => "histogram"
-  | .graph _ => "graph"
+  | .graph _ _ => "graph"
 
 inductive SelSpec where
   | cls (name : String)
@@ -280,6 +283,10 @@ def innerOf (j : Json) : Option (World → List Item → Step World Item) :=
   | some "count" => some (fun w xs => ⟨numberAll w.n xs, { w with n := w.n + xs.length }, none⟩)
   | some "raise" => some (fun w _ => ⟨[], w, some (.inner 1)⟩)
   | some "yieldraise" => some (fun w xs => ⟨xs.take 1, w, some (.inner 2)⟩)
+  | some "dupeven" => some (fun w xs => ⟨xs.flatMap (fun v =>
+      match v.data with
+      | .int i => if i % 2 == 0 then [v, v] else [v]
+      | _ => [v]), w, none⟩)
   | some "last" => some (fun w xs =>
       match xs.getLast? with
       | some v => ⟨[numbered v xs.length], w, none⟩
@@ -353,13 +360,16 @@ def pdfJson (r : PdfRun) : Json :=
 
 def itemList? (j : Json) : Option (List Item) := (arr? j).bind (fun a => a.toList.mapM toItem)
 
+/-- `{"k":"tocsv","dup":b,"header":b}` (defaults: `duplicate_last_bin=True`, no header) -/
+def csvCfg (el : Json) : CsvCfg := ⟨(bool? (getD el "dup")).getD true, (bool? (getD el "header")).getD false⟩
+
 def liftW (f : FS → Item → Step FS Item) : World → Item → Step World Item :=
   liftFS World.fs (fun w fs => { w with fs := fs }) f
 
 /-- one stage of a pipeline: its loop body and its selection predicate -/
 def stageOf (el : Json) : Option ((World → Item → Step World Item) × (Item → Bool)) :=
   match str? (getD el "k") with
-  | some "tocsv" => some (toCSVStep, toCSVSel)
+  | some "tocsv" => some (toCSVStep (csvCfg el), toCSVSel)
   | some "write" =>
     match str? (getD el "outdir"), str? (getD el "defname"), bool? (getD el "eu"), bool? (getD el "ow") with
     | some od, some dn, some eu, some ow => some (liftW (writeStep ⟨od, dn, eu, ow⟩), writeSel)
@@ -379,7 +389,7 @@ def stageOf (el : Json) : Option ((World → Item → Step World Item) × (Item 
   | some "iterbins" => (binSel (getD el "bins")).map (fun sb => (iterateBinsStep sb, iterateBinsSel sb))
   | some "mapbins" =>
     match binSel (getD el "bins"), cellInnerOf (getD el "inner") with
-    | some sb, some inner => some (mapBinsStep sb inner, mapBinsSel sb)
+    | some sb, some inner => some (mapBinsStep sb inner ((bool? (getD el "drop")).getD true), mapBinsSel sb)
     | _, _ => none
   | some "runif" =>
     match toSel (getD el "sel"), innerOf (getD el "inner") with
@@ -395,7 +405,7 @@ def handle (j : Json) : Json :=
   | some fs, some A, some B, some p =>
     let w0 : World := ⟨fs, 0⟩
     match str? (getD el "k") with
-    | some "tocsv" => both toCSVRun toCSVSel id fs p A B
+    | some "tocsv" => both (toCSVRun (csvCfg el)) toCSVSel id fs p A B
     | some "write" =>
       match str? (getD el "outdir"), str? (getD el "defname"), bool? (getD el "eu"), bool? (getD el "ow") with
       | some od, some dn, some eu, some ow => both (writeRun ⟨od, dn, eu, ow⟩) writeSel id fs p A B
@@ -431,7 +441,7 @@ def handle (j : Json) : Json :=
       | none => err "bad iterbins spec"
     | some "mapbins" =>
       match binSel (getD el "bins"), cellInnerOf (getD el "inner") with
-      | some sb, some inner => both (mapBinsRun sb inner) (mapBinsSel sb) id fs p A B
+      | some sb, some inner => both (mapBinsRun sb inner ((bool? (getD el "drop")).getD true)) (mapBinsSel sb) id fs p A B
       | _, _ => err "bad mapbins spec"
     | some "runif" =>
       match toSel (getD el "sel"), innerOf (getD el "inner") with
